@@ -236,6 +236,14 @@ func runC09Case(c *Ctx, idx int) *CaseResult {
 	cr := &CaseResult{}
 	r := c.Rng(idx, 0)
 	prog := GenTraceProgram(r, c09Opts)
+	// two rules that match the same string against DIFFERENT patterns (whatever a built-in keeps
+	// between calls must not leak from one goroutine's execution into another's)
+	for i, pat := range []string{"^a", "b$"} {
+		name := fmt.Sprintf("M%d", i+1)
+		prog.Rules = append(prog.Rules, &Rule{Name: name, Desc: "pattern " + pat, HasSal: true, Sal: int64(9001 + i),
+			When: CallE(VarE(P("F.S1"), TStr, reflect.String), "MatchString", TBool, reflect.Bool, LitS(pat)),
+			Then: []*Stmt{Assign(P("F.B"), "=", Bin("+", TInt, VarE(P("F.B"), TInt, reflect.Int64), LitI(int64(i+1)))), {Kind: "retract", Name: name}}})
+	}
 	style := traceStyle(c.Rng(idx, 1))
 	if style.Redundant {
 		DecorateProgram(prog, c.Rng(idx, 2))
